@@ -20,19 +20,19 @@ def claim(pid, cat, text, ref, note, tech):
     CLAIMS[pid] = (cat, text, ref, note, tech)
 
 claim("C08", "proof",
-      "Decides the 'two parameterisations never collide' clause exhaustively: for every impl of CustomOperationBody (all are enumerated from the type-checked program) every field of the operation's derived Eq/Hash identity flows into get_name, the literal name texts of distinct operations differ, and the instantiation caches are keyed by exactly (op, argument types). Meaning-preservation of the instantiated graphs is NOT decided.",
+      "Decides the 'two parameterisations never collide' clause exhaustively: for every impl of CustomOperationBody (all are enumerated from the type-checked program) every field of the operation's derived Eq/Hash identity flows into get_name, the literal name texts of distinct operations differ, and the instantiation caches are keyed by exactly (op, argument types) and the reported name is only used to name the glued graph, never to look one up (C08.G). Meaning-preservation of the instantiated graphs is NOT decided.",
       "DESIGN.md section 3, C08",
       "Trusted: rustc MIR + impl/ADT tables, the ccfacts dump, the value-flow engine (may-analysis: 'flows into a formatting argument / branch' is taken as 'appears in the name').",
       "custom MIR value-flow lint over all CustomOperationBody impls (rustc_private driver + Python rules)")
 
 claim("C12", "other",
-      "Decides structural necessary conditions of 'malformed input is an error, not a crash' and of round-trip completeness, exhaustively over the decoder layer (all bodies reachable from Context/Value/CustomOperation deserialize up to the public graph API): no unwrap/expect/panic!/checked-index construct outside a reasoned allow-table (C12.P); every index derived from the deserialized struct is guarded by a comparison of the same datum against len() of a container of the same element type (C12.I); decoded nodes always go through type inference (C12.A); writer, reader and deep-equality cover the same field set and nothing hash-ordered is serialized (C12.F). Deep equality / identical evaluation after a round trip as a behavioural fact is NOT decided.",
+      "Decides structural necessary conditions of 'malformed input is an error, not a crash' and of round-trip completeness, exhaustively over the decoder layer (all bodies reachable from Context/Value/CustomOperation deserialize up to the public graph API): no unwrap/expect/panic!/checked-index construct outside a reasoned allow-table (C12.P); every index derived from the deserialized struct is guarded by a comparison of the same datum against len() of a container of the same element type (C12.I); decoded nodes always go through type inference (C12.A); writer, reader and deep-equality cover the same field set and nothing hash-ordered is serialized (C12.F); every derived Serialize impl writes every field (C12.S); the envelope version is an equality test that gates decoding (C12.V). Deep equality / identical evaluation after a round trip as a behavioural fact is NOT decided.",
       "DESIGN.md section 3, C12",
       "Trusted: call-graph over resolved callees (serde-derived visitors are trusted not to panic), the API stop set (robustness of add_node etc. is C09/C11), the allow-table (1 entry) and the derived-field tables printed in the evidence.",
       "call-graph layer scan + guard-dominance rule on MIR (custom rustc_private lint)")
 
 claim("C11", "other",
-      "Decides the mechanisms behind 'a finalized graph or context rejects every mutation' and 'a failed call has no effect', on every control-flow path of every function that mutably borrows a GraphBody/ContextBody (enumerated from the program, classification derived, not frozen): finalized-guard dominance / set-once setters / finalizers / protected private helpers / type-cache writers (C11.G); in add_node_internal every error exit after the node was pushed passes through remove_last_node, which unregisters names, annotations, cached type and pops the node; the size counter is only written on success (C11.R). Arbitrary API histories as such are NOT explored.",
+      "Decides the mechanisms behind 'a finalized graph or context rejects every mutation' and 'a failed call has no effect', on every control-flow path of every function that mutably borrows a GraphBody/ContextBody (enumerated from the program, classification derived, not frozen): finalized-guard dominance / set-once setters / finalizers / protected private helpers / type-cache writers (C11.G); in add_node_internal every error exit after the node was pushed passes through remove_last_node, which unregisters names, annotations, cached type and pops the node; the size counter is only written on success (C11.R); no error exit is reachable after an effective write to a shared body and paired name tables are updated together (C11.B); each of the six dependency checks precedes the creation of the node (C11.D). Arbitrary API histories as such are NOT explored.",
       "DESIGN.md section 3, C11",
       "Trusted: MIR CFG, the finalized-test recogniser (is_finalized() call or read of a `finalized` field), infeasible-edge pruning restricted to is_err/is_ok/is_some/is_none correlations on single-definition locals.",
       "guard-dominance and must-pass-through rules on MIR CFGs (custom rustc_private lint)")
@@ -55,12 +55,12 @@ claim("C19", "other",
       "builder value-flow (producer sets, taint) over MIR (custom rustc_private lint)")
 
 claim("C06", "other",
-      "Decides the interface/bookkeeping half of the property on the code of the four passes, optimize_context and uniquify_prf_id, i.e. for every graph they are ever given: every re-created node gets the source node's annotations and name on every path to the mapping (C06.A); nodes are visited in get_nodes() order and Input nodes are never skipped (C06.I, per variant by abstract interpretation); the recorded type is get_type() of the very node whose operation is copied and only the tabled modules may skip inference (C06.T); each pass marks the mapped output and the four mappings are chained in data-dependence order (C06.O); A2B/B2A cancellation is guarded by scalar-type equality (C06.B); the dangling pass drops only unneeded non-inputs (C06.X). That the optimised graph computes the same function is NOT decided.",
+      "Decides the interface/bookkeeping half of the property on the code of the four passes, optimize_context and uniquify_prf_id, i.e. for every graph they are ever given: every re-created node gets the source node's annotations and name on every path to the mapping (C06.A); nodes are visited in get_nodes() order and Input nodes are never skipped (C06.I, per variant by abstract interpretation); the recorded type is get_type() of the very node whose operation is copied and only the tabled modules may skip inference (C06.T); each pass marks the mapped output and the four mappings are chained in data-dependence order (C06.O); A2B/B2A cancellation is guarded by scalar-type equality (C06.B); the de-duplication key keeps operand order except for commutative operations (C06.K); the dangling pass drops only unneeded non-inputs (C06.X). That the optimised graph computes the same function is NOT decided.",
       "DESIGN.md section 3, C06",
       "Trusted: may-value-flow (a wrong extra producer can only cause a report), abstract interpreter, MIR construction; the table of modules allowed to call add_node_with_type.",
       "must-pass-through + value-flow provenance + variant-conditioned abstract interpretation on MIR (custom rustc_private lint)")
 claim("C09", "other",
-      "Decides 'an operation whose arguments do not fit is rejected, not crashed' for the partial accessors of Type (derived: get_scalar_type/get_shape/get_dimensions) at all call sites of the type-inference slice: assuming any inadmissible variant for the receiver value, guards on the same value make the call unreachable, or every producer of the value is an admissible constructor / validated container element / struct field with an invariant / guarded argument (C09.K); constant dependency indices of all dispatchers stay within the arity table for every Operation variant (C09.A); evaluator arms that can only panic are diverted by evaluate_graph (C09.E); nodes are only created in add_node_internal and add_node infers the type (C09.F). That each computed value has the inferred shape, and panic-freedom of general index arithmetic, are NOT decided.",
+      "Decides 'an operation whose arguments do not fit is rejected, not crashed' for the partial accessors of Type (derived: get_scalar_type/get_shape/get_dimensions) at all call sites of the type-inference slice: assuming any inadmissible variant for the receiver value, guards on the same value make the call unreachable, or every producer of the value is an admissible constructor / validated container element / struct field with an invariant / guarded argument (C09.K); constant dependency indices of all dispatchers stay within the arity table for every Operation variant (C09.A); every other panic construct of the slice is explained by a derived partial function whose call sites exclude the bad variants, a checked map lookup or a tabled reason (C09.U); indices derived from operation parameters are range-checked (C09.X); no guard compares an expression with itself (C09.S); evaluator arms that can only panic are diverted by evaluate_graph (C09.E); nodes are only created in add_node_internal and add_node infers the type (C09.F). That each computed value has the inferred shape, and panic-freedom of general index arithmetic, are NOT decided.",
       "DESIGN.md section 3, C09",
       "Trusted: abstract interpreter over Type/Operation variant tags (unknown calls are TOP), value-flow engine, the recognition of table-level validation loops, MIR construction.",
       "guard analysis by variant-conditioned abstract interpretation of MIR + provenance rules (custom rustc_private lint)")
@@ -72,12 +72,12 @@ claim("C10", "other",
       "type-provenance rule over MIR value-flow, per Operation variant (custom rustc_private lint)")
 
 claim("C14", "other",
-      "Decides the layout clause across the three sibling implementations (TypedValue::get_local_shares_for_each_party, ReplicatedShares::secret_share_for_parties, mpc::utils::share_vector): the 3x3 matrix (party, slot) -> (source, index) is recovered from the MIR; party p holds shares p and p+1 of the secret's sharing in their own slots and a PRNG-only value in the third; the matrices agree (C14.L); in each sharing the first two shares are independent PRNG draws and the third depends on the secret and both of them through a subtraction (C14.S). Reconstruction over all types/values and uniformity are NOT decided.",
+      "Decides the layout clause across the three sibling implementations (TypedValue::get_local_shares_for_each_party, ReplicatedShares::secret_share_for_parties, mpc::utils::share_vector): the 3x3 matrix (party, slot) -> (source, index) is recovered from the MIR; party p holds shares p and p+1 of the secret's sharing in their own slots and a PRNG-only value in the third; the matrices agree (C14.L); in each sharing the first two shares are independent PRNG draws and the third depends on the secret and both of them through a subtraction (C14.S); no random draw is replicated in random.rs (C14.U); thorough tier: the split_parties binary hands party j element j of one sharing per input (C14.B). Reconstruction over all types/values and uniformity as a distribution are NOT decided.",
       "DESIGN.md section 3, C14",
       "Trusted: dependency closure of the value-flow engine (all calls except PRNG draws, len/type queries are taken as value-propagating), positional recovery of vec![..] aggregates.",
       "positional value-flow recovery on MIR with sibling cross-check (custom rustc_private lint)")
 claim("C15", "other",
-      "Decides the effect clauses: the PRF object has no state besides the key schedule, its output functions only read self and use a PrfSession created in the same call from the counter (C15.P); no path from Prf::output_*, PrfSession::* or the PRNG methods reaches OS randomness/time/environment, and seeded construction does not either (C15.E, call-graph + abstract interpretation with Some(seed)); the evaluator's per-key PRF cache is keyed by the bytes the cached Prf is built from and both cache branches evaluate the node's own (counter, type) (C15.C). Bias, permutation validity and value domains are NOT decided.",
+      "Decides the effect clauses: the PRF object has no state besides the key schedule, its output functions only read self and use a PrfSession created in the same call from the counter, in the same arithmetic form in both output functions (C15.P); no path from Prf::output_*, PrfSession::* or the PRNG methods reaches OS randomness/time/environment, and seeded construction does not either (C15.E, call-graph + abstract interpretation with Some(seed)); the evaluator's per-key PRF cache is keyed by the bytes the cached Prf is built from and both cache branches evaluate the node's own (counter, type) (C15.C). Bias, permutation validity and value domains are NOT decided.",
       "DESIGN.md section 3, C15",
       "Trusted: resolved call graph of the crate (external crates only by callee name patterns: OsRng, getrandom, SystemTime, thread_rng, ...), value-flow engine.",
       "effect analysis over the resolved call graph + field-write and provenance rules on MIR (custom rustc_private lint)")
